@@ -5,11 +5,27 @@ For generated field lists every way (thorough) / sampled ways (quick) of splitti
 layout, reader kind (compiled if requested), parse results, dumps, default instance, equality.  Self-referential
 definitions (forward reference through a pointer) are checked against their expected layout and behaviour.
 The Lean model (`Commit.lean`: layout with persisted offsets) is compared on the sequence of layouts.
+
+Added probes (helpers in harness/s7_c18.py):
+ * the reader itself: `__compiled__`, whether `_read` is the interpreted loop, and for a generated reader its source / plan
+   (harness/srcplan.py) with the `_N` type tokens renumbered plus the types the tokens are bound to, must equal those of the
+   one-shot class (a reader generated from an intermediate state, or a silent fall-back to the interpreted loop, shows here).
+ * reads away from offset 0: both classes parse the same bytes from stream positions 1 and 3, as member of a packed outer
+   structure behind 1 / 3 bytes, and as elements of T[2] read from position 1 (value, consumed, sizes, dumps).
+ * explicit offsets: field lists with `offset=` on some fields (gaps, occasionally overlays), given to add_field / Field.
+ * commit mode "extend": `__fields__.extend(...)` + `commit()`, the way the parser fills a pre-registered structure; optionally
+   the intermediate classes are used (parsed with) between commits.
+ * instance behaviour: bool, repr, len, positional construction, ==, != and hash of objects that differ in one byte, and what
+   the writer puts into a stream standing at position 1 / 3.
+ * parser path: fixed self-referential texts and generated definitions (optionally with `T *self` / `T *self[2]` / `T **self`
+   members) are loaded as named top-level structs (pre-registered empty, compiled if requested, then extended and committed)
+   and compared, in all the ways above, with the same field list declared in one piece (`s7.rebuild`).
 """
 from __future__ import annotations
 
 import io
 import itertools
+import re
 
 from .. import defs, impl, refimpl
 from .. import s7_c18 as s7
@@ -109,32 +125,123 @@ def observe(cs, T, inputs, prefix, compiled, flips):
     return out, dflt, s7.behaviour(T, inputs[0], flips)
 
 
-def compare(viol, res, cd, sig, want, got, requested, inputs, prefix):
+def compare(viol, res, cd, sig, want, got, requested, inputs, prefix, who="incremental structure"):
     """want / got = (describe, reader signature, observations, default dump, behaviour) of the one-shot class and the class under
     test; -> True if they agree"""
     ok = True
     if got[0] != want[0]:
-        viol(f"incremental structure {got[0]} differs from the one-shot structure {want[0]}", cd, sig)
+        viol(f"layout / compiled flag of the {who} differ from the one-shot structure: {got[0]} vs one-shot {want[0]}", cd, sig)
         return False
     why = s7.reader_diff(want[1], got[1], requested)
     if why:
-        viol("the reader of the incremental structure is not the reader of the one-shot structure: " + why, cd, sig)
+        viol(f"the reader of the {who} is not the reader of the one-shot structure: " + why, cd, sig)
         ok = False
     for (lw, w), (lg, g) in zip(want[2], got[2]):
         if not s7.same_summ(w, g):
-            viol(f"incremental structure read ({lg}) gives {str(g)[:220]}, one-shot {str(w)[:220]}",
-                 dict(cd, data=[d.hex() for d in inputs], prefix=prefix.hex(), read=lg), sig)
+            viol(f"{who} parses/dumps differently ({lg}): {str(g)[:220]}, one-shot {str(w)[:220]}",
+                 dict(cd, read=lg), sig)
             ok = False
             break
     if got[3] != want[3]:
-        viol(f"default instance of the incremental structure dumps {got[3]!r}, one-shot {want[3]!r}", cd, sig)
+        viol(f"default instance of the {who} dumps differently: {got[3]!r}, one-shot {want[3]!r}", cd, sig)
         ok = False
     if got[4] != want[4]:
         d = next(((a, b) for a, b in zip(got[4], want[4]) if a != b), (got[4], want[4]))
-        viol(f"instances of the incremental structure behave differently (==, hash, bool, repr, positional construction, write into a "
-             f"stream at position 1/3): {str(d[0])[:200]}, one-shot {str(d[1])[:200]}", dict(cd, data=inputs[0].hex()), sig)
+        viol(f"instances of the {who} behave differently (==, hash, bool, repr, positional construction, write into a "
+             f"stream at position 1/3): {str(d[0])[:200]}, one-shot {str(d[1])[:200]}", cd, sig)
         ok = False
     return ok
+
+
+def fresh_cs(dc, endian, align, compiled):
+    """a new cstruct instance with the ingredients of the field lists (enum E8, struct Inner), made through the factories:
+    one instance is needed per history and the definition parser costs ~7 ms per load"""
+    from dissect.cstruct import compiler
+    from dissect.cstruct.types.structure import Field
+
+    cs = dc.cstruct(endian=endian)
+    cs.add_type("E8", cs._make_enum("E8", cs.uint8, {"A": 1, "B": 2, "C": 7}))
+    inner = cs._make_struct("Inner", [Field("x", cs.uint8), Field("y", cs.uint32)], align=align)
+    cs.add_type("Inner", compiler.compile(inner) if compiled else inner)
+    return cs
+
+
+def build_oneshot(cs, specs, align, compiled):
+    from dissect.cstruct import compiler
+    from dissect.cstruct.types.structure import Field
+
+    one = cs._make_struct("T", [Field(nm, mk_type(cs, sp), bits=b, offset=o) for nm, sp, b, o in specs], align=align)
+    return compiler.compile(one) if compiled else one
+
+
+def build_incremental(cs, specs, align, compiled, batches, mode, touch, inputs, prefix):
+    from dissect.cstruct import compiler
+    from dissect.cstruct.types.structure import Field
+
+    st = cs._make_struct("T", [], align=align)
+    if compiled:
+        st = compiler.compile(st)
+    for bi, batch in enumerate(batches):
+        use_update = mode == "update" or (mode == "mixed" and bi % 2 == 0)
+        if mode == "extend":
+            # what the parser does with a pre-registered structure
+            st.__fields__.extend(Field(specs[i][0], mk_type(cs, specs[i][1]), bits=specs[i][2], offset=specs[i][3]) for i in batch)
+            st.commit()
+        elif use_update:
+            with st.start_update():
+                for i in batch:
+                    nm, sp, b, o = specs[i]
+                    st.add_field(nm, mk_type(cs, sp), bits=b, offset=o)
+        else:
+            for i in batch:
+                nm, sp, b, o = specs[i]
+                st.add_field(nm, mk_type(cs, sp), bits=b, offset=o)
+        if touch:
+            # use the intermediate class: nothing it caches may leak into the final one
+            impl.parse(st, inputs[0])
+            impl.parse(st, prefix[:1] + inputs[0], 1)
+    return st
+
+
+def full(cs, T, inputs, prefix, compiled, flips):
+    return (describe(T), s7.reader_sig(T), *observe(cs, T, inputs, prefix, compiled, flips))
+
+
+PARSER_WHO = "structure built by the parser (pre-registered, extended, committed)"
+
+
+def parser_case(dc, cd, viol, res=None, rnd=None, kind=""):
+    """cd: definition, names, endian, align, compiled, pointer (+ data/prefix/flips per struct when replaying)"""
+    cs = dc.cstruct(endian=cd["endian"], pointer=cd["pointer"])
+    compiled = cd["compiled"]
+    try:
+        cs.load(cd["definition"], compiled=compiled, align=cd["align"])
+    except Exception as e:  # noqa: BLE001
+        if res:
+            res.feat(f"parser-path:{kind}:rejected:{type(e).__name__}")
+        return
+    for name in cd["names"]:
+        T = getattr(cs, name)
+        if res:
+            res.count(("parser", cd["definition"], cd["endian"], cd["align"], compiled, cd["pointer"], name))
+            res.feat(f"parser-path:{kind}")
+        try:
+            R = s7.rebuild(cs, T, compiled)
+        except Exception as e:  # noqa: BLE001
+            viol(f"the field list the parser committed is rejected when declared in one piece: struct {name}: {type(e).__name__}: {e}", cd)
+            continue
+        if rnd is not None:
+            size = R.size if R.size is not None else 40
+            inputs = [rand_bytes(rnd, size + 6) for _ in range(2)]
+            prefix = bytes(rnd.randrange(1, 256) for _ in range(8))
+            flips = sorted({size - 1, rnd.randrange(size)}) if size else []
+        else:
+            if cd.get("struct") != name:
+                continue
+            inputs, prefix, flips = [bytes.fromhex(x) for x in cd["data"]], bytes.fromhex(cd["prefix"]), cd["flips"]
+        cdn = dict(cd, struct=name, data=[d.hex() for d in inputs], prefix=prefix.hex(), flips=flips)
+        compare(viol, res, cdn, None, full(cs, R, inputs, prefix, compiled, flips), full(cs, T, inputs, prefix, compiled, flips),
+                compiled, inputs, prefix, who=PARSER_WHO)
 
 
 SELFREF_TEXTS = [
@@ -164,13 +271,20 @@ def run(env) -> Result:
     tier = env["tier"]
     findings = {f["id"] for f in env["findings"]}
 
+    kinds: dict[str, int] = {}
+
     def viol(what, data, sig=None):
         if sig and sig in findings:
             res.known_seen[sig] = res.known_seen.get(sig, 0) + 1
-        elif len(res.violations) < 50:
+            return
+        # at most 6 reports per kind of failure, so that one early field list does not use up all 50 slots
+        kind = re.sub(r"\d+", "N", what.split(": ")[0])[:90]
+        kinds[kind] = kinds.get(kind, 0) + 1
+        res.feat("violation-kind:" + kind)
+        if kinds[kind] <= 6 and len(res.violations) < 50:
             res.violations.append(Case("property", what, data))
 
-    for _ in range(60 if tier == "quick" else 1500):
+    for _ in range(60 if tier == "quick" else 1100):
         n = rnd.randint(0, 6)
         with_offsets = rnd.random() < 0.4
         for align, compiled in itertools.product((False, True), (False, True)):
@@ -178,29 +292,23 @@ def run(env) -> Result:
                 continue
             endian = rnd.choice("<>")
 
-            def fresh():
-                cs = dc.cstruct(endian=endian)
-                cs.load(defs.PREAMBLE + "struct Inner { uint8 x; uint32 y; };", compiled=compiled, align=align)
-                return cs
-
-            cs0 = fresh()
+            cs0 = fresh_cs(dc, endian, align, compiled)
             specs = field_specs(rnd, cs0, n, offsets=with_offsets)
             has_off = any(s[3] is not None for s in specs)
-            cd0 = {"fields": [str(s) for s in specs], "align": align, "compiled": compiled, "endian": endian}
             f23 = align and any(s[2] and s[1][1] in ("int24", "uint24", "uint48") for s in specs if s[1][0] == "sc")
             sig = "F23" if f23 else None
             try:
-                one = cs0._make_struct("T", [Field(nm, mk_type(cs0, sp), bits=b, offset=o) for nm, sp, b, o in specs], align=align)
-                if compiled:
-                    one = compiler.compile(one)
+                one = build_oneshot(cs0, specs, align, compiled)
             except Exception as e:  # noqa: BLE001
                 res.feat("one-shot-rejected:" + type(e).__name__)
                 continue
             size = one.size if one.size is not None else 40
             inputs = [rand_bytes(rnd, size + 6) for _ in range(2)]
             prefix = bytes(rnd.randrange(1, 256) for _ in range(8))
-            flips = sorted({size - 1, *[rnd.randrange(size) for _ in range(2)]} - {-1}) if size else []
-            want = (describe(one), s7.reader_sig(one), *observe(cs0, one, inputs, prefix, compiled, flips))
+            flips = sorted({size - 1, *[rnd.randrange(size) for _ in range(2)]}) if size else []
+            cd0 = {"fields": [str(s) for s in specs], "align": align, "compiled": compiled, "endian": endian,
+                   "data": [d.hex() for d in inputs], "prefix": prefix.hex(), "flips": flips}
+            want = full(cs0, one, inputs, prefix, compiled, flips)
             if has_off:
                 res.feat("field-list-with-explicit-offsets")
             if compiled and not one.__compiled__:
@@ -210,38 +318,17 @@ def run(env) -> Result:
                     if tier == "quick" and mode in ("mixed", "extend") and rnd.random() < 0.5:
                         continue
                     touch = rnd.random() < 0.3
-                    cs = fresh()
+                    cs = fresh_cs(dc, endian, align, compiled)
                     cd = dict(cd0, batches=batches, mode=mode, read_between_commits=touch)
                     res.count((str(specs), align, compiled, str(batches), mode), len(batches) >= 2)
                     res.feat(f"batches:{len(batches)}")
                     res.feat(f"mode:{mode}")
                     try:
-                        st = cs._make_struct("T", [], align=align)
-                        if compiled:
-                            st = compiler.compile(st)
-                        for bi, batch in enumerate(batches):
-                            use_update = mode == "update" or (mode == "mixed" and bi % 2 == 0)
-                            if mode == "extend":
-                                # what the parser does with a pre-registered structure
-                                st.__fields__.extend(Field(specs[i][0], mk_type(cs, specs[i][1]), bits=specs[i][2], offset=specs[i][3]) for i in batch)
-                                st.commit()
-                            elif use_update:
-                                with st.start_update():
-                                    for i in batch:
-                                        nm, sp, b, o = specs[i]
-                                        st.add_field(nm, mk_type(cs, sp), bits=b, offset=o)
-                            else:
-                                for i in batch:
-                                    nm, sp, b, o = specs[i]
-                                    st.add_field(nm, mk_type(cs, sp), bits=b, offset=o)
-                            if touch:
-                                # use the intermediate class: nothing it caches may leak into the final one
-                                impl.parse(st, inputs[0])
-                                impl.parse(st, prefix[:1] + inputs[0], 1)
+                        st = build_incremental(cs, specs, align, compiled, batches, mode, touch, inputs, prefix)
                     except Exception as e:  # noqa: BLE001
-                        viol(f"incremental definition raises {type(e).__name__}: {e} where the one-shot definition is accepted", cd, sig)
+                        viol(f"incremental definition raises where the one-shot definition is accepted: {type(e).__name__}: {e}", cd, sig)
                         continue
-                    got = (describe(st), s7.reader_sig(st), *observe(cs, st, inputs, prefix, compiled, flips))
+                    got = full(cs, st, inputs, prefix, compiled, flips)
                     res.feat("probe:reader-signature")
                     res.feat("probe:reads-away-from-0", len(got[2]) - len(inputs))
                     res.feat("probe:instance-behaviour")
@@ -250,35 +337,14 @@ def run(env) -> Result:
     # definitions through the parser: a named top-level struct is pre-registered empty (compiled if requested), then extended and
     # committed; the same field list declared in one piece must give the same class
     def parser_probe(text, names, endian, align, compiled, ptr, kind):
-        cs = dc.cstruct(endian=endian, pointer=ptr)
-        cd = {"definition": text, "endian": endian, "align": align, "compiled": compiled, "pointer": ptr}
-        try:
-            cs.load(text, compiled=compiled, align=align)
-        except Exception as e:  # noqa: BLE001
-            res.feat(f"parser-path:{kind}:rejected:{type(e).__name__}")
-            return
-        for name in names:
-            T = getattr(cs, name)
-            res.count(("parser", text, endian, align, compiled, ptr, name))
-            res.feat(f"parser-path:{kind}")
-            try:
-                R = s7.rebuild(cs, T, compiled)
-            except Exception as e:  # noqa: BLE001
-                viol(f"struct {name}: the field list the parser committed is rejected when declared in one piece: {type(e).__name__}: {e}", cd)
-                continue
-            size = R.size if R.size is not None else 40
-            inputs = [rand_bytes(rnd, size + 6) for _ in range(2)]
-            prefix = bytes(rnd.randrange(1, 256) for _ in range(8))
-            flips = sorted({size - 1, rnd.randrange(size)}) if size else []
-            want = (describe(R), s7.reader_sig(R), *observe(cs, R, inputs, prefix, compiled, flips))
-            got = (describe(T), s7.reader_sig(T), *observe(cs, T, inputs, prefix, compiled, flips))
-            compare(viol, res, dict(cd, struct=name), None, want, got, compiled, inputs, prefix)
+        parser_case(dc, {"definition": text, "names": names, "endian": endian, "align": align, "compiled": compiled, "pointer": ptr},
+                    viol, res, rnd, kind)
 
     for (text, names), endian, align, compiled, ptr in itertools.product(SELFREF_TEXTS, "<>", (False, True), (False, True), ("uint32", "uint64", "uint16")):
         if tier == "quick" and rnd.random() < 0.5:
             continue
         parser_probe(text, names, endian, align, compiled, ptr, "self-reference")
-    for _ in range(150 if tier == "quick" else 2500):
+    for _ in range(150 if tier == "quick" else 1500):
         g = defs.Gen(rnd, max_depth=rnd.choice([0, 1, 1, 2]), max_fields=5)
         tree = g.struct()
         body = [defs.render_field(f, None) for f in tree[1]]
@@ -341,5 +407,39 @@ def run(env) -> Result:
 
 
 def replay(body) -> int:
-    print("replay:", body.get("what"), body.get("case"))
-    return 0
+    """re-run the recorded history / definition and report whether the two classes still differ"""
+    import ast
+
+    case = body.get("case") or {}
+    print("replay:", body.get("what"))
+    print("case:", case)
+    found = []
+
+    def viol(what, data, sig=None):
+        found.append(what)
+
+    dc = impl.dc()
+    if "batches" in case:
+        specs = [ast.literal_eval(x) for x in case["fields"]]
+        align, compiled, endian = case["align"], case["compiled"], case["endian"]
+        inputs, prefix, flips = [bytes.fromhex(x) for x in case["data"]], bytes.fromhex(case["prefix"]), case["flips"]
+        cs0 = fresh_cs(dc, endian, align, compiled)
+        one = build_oneshot(cs0, specs, align, compiled)
+        cs = fresh_cs(dc, endian, align, compiled)
+        try:
+            st = build_incremental(cs, specs, align, compiled, case["batches"], case["mode"], case.get("read_between_commits", False), inputs, prefix)
+        except Exception as e:  # noqa: BLE001
+            print(f"incremental definition raises {type(e).__name__}: {e}")
+            return 1
+        compare(viol, None, case, None, full(cs0, one, inputs, prefix, compiled, flips), full(cs, st, inputs, prefix, compiled, flips),
+                compiled, inputs, prefix)
+    elif "definition" in case and "names" in case and "struct" in case:
+        parser_case(dc, case, viol)
+    else:
+        print("nothing to re-run for this case")
+        return 0
+    for w in found:
+        print("REPRODUCED:", w)
+    if not found:
+        print("not reproduced: the two classes agree")
+    return 1 if found else 0
